@@ -96,5 +96,8 @@ let () =
       let pend = pending_ops w in
       let ps = String.concat "" (List.map (fun ((((i, r), wr), h), s) ->
           cid i ^ (if r then "r" else "") ^ (if wr then "w" else "") ^ (if h then "h" else "") ^ (if s then "s" else "") ^ " ") pend) in
-      String.concat " " (List.map show_item log) ^ " pending=" ^ (if ps = "" then "-" else ps)
+      (* nodisc=1: the application registered no socket_disconnected_event handler, so it is not told *)
+      let ends_with suf x = let n = String.length suf and m = String.length x in m >= n && String.sub x (m - n) n = suf in
+      let shown = List.filter (fun x -> not (get "nodisc" "0" = "1" && ends_with ":disconnected" x)) (List.map show_item log) in
+      String.concat " " shown ^ " pending=" ^ (if ps = "" then "-" else ps)
     | _ -> failwith "sim")
